@@ -125,7 +125,21 @@ func (s *scRebal) TuneMember(w *World, m *Member) {
 
 func (s *scRebal) BeforeStart(w *World, m *Member) {
 	m.sd = servicediscovery.NewServiceDiscovery(m.cfg, m.bus)
+	if w.cfg.Membership == "kubernetesHa" {
+		m.sd.AssignLeader(servicediscovery.NewService(nopRPC{}, "leader-0", 0))
+	}
 }
+
+// nopRPC stands for the rpc connection of a follower to its leader (never called in this scenario: the
+// heart-beat loop is not started; assignments are handed to SetInfo directly, as rpc_server.go does).
+type nopRPC struct{}
+
+func (nopRPC) Close() error             { return nil }
+func (nopRPC) IsConnected() bool        { return true }
+func (nopRPC) Reconnect() error         { return nil }
+func (nopRPC) Ping() error              { return nil }
+func (nopRPC) Register() error          { return nil }
+func (nopRPC) Rebalance(int, int) error { return nil }
 
 func (s *scRebal) BeforeStep(w *World) {
 	for _, m := range w.members {
@@ -158,7 +172,31 @@ func (s *scRebal) notify(w *World, m *Member, n, t int, viaAPI bool) {
 		m.apiCallThen("PUT", "/membership/info", fmt.Sprintf(`{"memberNumber":%d,"totalMembers":%d}`, n, t), done)
 		return
 	}
+	w.mu.Lock()
+	m.lastSet = [2]int{n, t}
+	w.mu.Unlock()
 	m.call(fmt.Sprintf("SetInfo %d/%d", n, t), func() string { m.sd.SetInfo(n, t); done(); return "" })
+}
+
+// handover: the leader changed (stream/leader_election.go's OnNewLeader on a follower: RemoveLeader, AssignLeader)
+// and the new leader's first message repeats the assignment this member already has.
+func (s *scRebal) handover(w *World, m *Member) {
+	w.mu.Lock()
+	m.notifInFlight++
+	m.notifCount++
+	m.handovers++
+	last := m.lastSet
+	name := fmt.Sprintf("leader-%d", m.handovers)
+	w.mu.Unlock()
+	m.call(fmt.Sprintf("Handover %d/%d", last[0], last[1]), func() string {
+		m.sd.RemoveLeader()
+		m.sd.AssignLeader(servicediscovery.NewService(nopRPC{}, name, int64(m.handovers)))
+		m.sd.SetInfo(last[0], last[1])
+		w.mu.Lock()
+		m.notifInFlight--
+		w.mu.Unlock()
+		return ""
+	})
 }
 
 func (s *scRebal) MemberActions(w *World, m *Member) []Action {
@@ -199,6 +237,13 @@ func (s *scRebal) MemberActions(w *World, m *Member) []Action {
 		} else {
 			acts = append(acts, Action{ID: fmt.Sprintf("info|sd|%s|%d/%d", id, mv[0], mv[1]), W: wt, Do: func() { s.notify(w, m, mv[0], mv[1], false) }})
 		}
+	}
+	if c.Membership == "kubernetesHa" && m.lastSet[1] > 0 {
+		hw := wt
+		if hw > 2 {
+			hw = 2
+		}
+		acts = append(acts, Action{ID: "handover|" + id, W: hw, Do: func() { s.handover(w, m) }})
 	}
 	acts = append(acts, Action{ID: "rebalance|api|" + id, W: wt, Do: func() {
 		w.mu.Lock()
